@@ -152,7 +152,7 @@ def run_property(prop, tier, seed, only_kernel=None, verbose=True):
             machinery.append("%s: loop contract silently dropped (no loop_invariant_step obligation)" % jn)
             continue
         if kind == "cover":
-            cov = [o for o in r.obligations if o["description"].startswith("COVER")]
+            cov = [o for o in r.obligations if o["description"].startswith("COVER") and o.get("function") in (None, j.harness)]
             if not cov:
                 machinery.append("%s: cover job without COVER assertions" % jn)
             for o in cov:
@@ -276,6 +276,9 @@ def run_property(prop, tier, seed, only_kernel=None, verbose=True):
 
 def scan_generated(ctext):
     body = extract.strip_comments(ctext)
+    # macro definitions that generate harness functions (names h_*) are harness text
+    body = re.sub(r'^[ \t]*#[ \t]*define[ \t]+\w+\([^)]*\)[ \t]*\\\n(?:.*\\\n)*.*\bvoid h_.*$', '', body, flags=re.M)
+    body = re.sub(r'^[ \t]*#[ \t]*define[ \t]+(?:.*\\\n)*.*$', '', body, flags=re.M)
     if re.search(r'__CPROVER_assume\s*\(', body):
         # allowed only inside harness functions (h_*) and prelude nondet builders
         for mo in re.finditer(r'__CPROVER_assume\s*\(', body):
